@@ -9,6 +9,10 @@ Line protocol (one case per line, `key=value` tokens):
   answer:  J=<col;col;..> calls=<pt;pt;..>      (cs call points: `re,..|im,..`)
            E:index when numpy's fancy indexing would reject the arguments
 
+  new <s:rat|v:rats> / setstep <s:rat|v:rats>   -> ok   (constructor / `step` setter: the default step)
+  grad … step=default …                         uses the default step of the session
+  gen <fd|cd|cs> x=.. idx=.. step=.. ds=..      -> P=<col;col;..> S=<signed steps (fd) | ->   (generate_perturbations)
+
   place m=<m> n=<n> idx=<nats|[]> cols=<col;col;..>           -> full=<col;col;..>   (n columns)
   gidx sizes=<nats> sel=<S;S;..>   S = `*` | nats              -> <nats>
   block rows=<row;row;..> ro=<n> rs=<n> co=<n> cs=<n>          -> <row;row;..>
@@ -66,11 +70,28 @@ def parseSel? (s : String) : Option Sel :=
 def bits (l : List Bool) : String :=
   if l.isEmpty then "[]" else String.join (l.map (fun b => if b then "1" else "0"))
 
-def answerGrad (scheme mode : String) (toks : List String) : String :=
+def parseStepArg? (s : String) : Option (Option Step) :=
+  if s = "default" then some none else (parseStep? s).map some
+
+def answerGen (st : Approx) (scheme : String) (toks : List String) : String :=
   match kv toks "x" >>= parseRatList?, kv toks "idx" >>= parseNatList?,
-        kv toks "step" >>= parseStep?, kv toks "ds" >>= parseSpace?,
+        kv toks "step" >>= parseStepArg?, kv toks "ds" >>= parseSpace? with
+  | some x, some idx, some sa, some sp =>
+    let s := st.resolve sa
+    if !validArgs x.length idx s then "E:index" else
+    match scheme with
+    | "fd" => s!"P={showVecs (fdPerts sp x s idx)} S={showRatList (fdSteps sp x s idx)}"
+    | "cd" => s!"P={showVecs (cdPerts sp x s idx)} S=-"
+    | "cs" => s!"P={showVecs (csPerts x s idx)} S=-"
+    | _ => "bad-scheme"
+  | _, _, _, _ => "bad-args"
+
+def answerGrad (st : Approx) (scheme mode : String) (toks : List String) : String :=
+  match kv toks "x" >>= parseRatList?, kv toks "idx" >>= parseNatList?,
+        kv toks "step" >>= parseStepArg?, kv toks "ds" >>= parseSpace?,
         kv toks "poly" >>= parsePolys? with
-  | some x, some idx, some s, some sp, some ps =>
+  | some x, some idx, some sa, some sp, some ps =>
+    let s := st.resolve sa
     if !validArgs x.length idx s then "E:index" else
     let par := mode == "par"
     match scheme with
@@ -86,9 +107,10 @@ def answerGrad (scheme mode : String) (toks : List String) : String :=
     | _ => "bad-scheme"
   | _, _, _, _, _ => "bad-args"
 
-def answer (line : String) : String :=
+def answer (st : Approx) (line : String) : String :=
   match tokens line with
-  | "grad" :: scheme :: mode :: rest => answerGrad scheme mode rest
+  | "grad" :: scheme :: mode :: rest => answerGrad st scheme mode rest
+  | "gen" :: scheme :: rest => answerGen st scheme rest
   | "place" :: rest =>
     match kv rest "m" >>= String.toNat?, kv rest "n" >>= String.toNat?,
           kv rest "idx" >>= parseNatList?, kv rest "cols" >>= parseVecs? with
@@ -117,4 +139,13 @@ def answer (line : String) : String :=
     | _, _, _ => "bad-args"
   | _ => "bad-op"
 
-def main : IO Unit := driverLoop (fun (_ : Unit) l => ((), answer l)) ()
+/-- State of the driver: the approximator of the current session (`new`/`setstep` lines). -/
+def stepLine (st : Approx) (line : String) : Approx × String :=
+  match tokens line with
+  | ["new", s] | ["setstep", s] =>
+    match parseStep? s with
+    | some s => (st.setStep s, "ok")
+    | none => (st, "bad-args")
+  | _ => (st, answer st line)
+
+def main : IO Unit := driverLoop stepLine (⟨.scalar 0⟩ : Approx)
